@@ -46,6 +46,7 @@ pub fn check_line(fl: &mut Flounder, white_to_move: bool, line: &str, own_time: 
 pub fn check_line_variant(fl: &mut Flounder, white_to_move: bool, line: &str, own_time: u64, own_inc: u64, variant: u64, vbase: &mut HashMap<(bool, u64, u64, u64), u128>, baseline: &mut HashMap<(bool, u64, u64), u128>, rep: &Report) -> bool {
     let sig_base = format!("C12 stm={} own_time={} own_inc={}", if white_to_move { "w" } else { "b" }, own_time, own_inc);
     let args = vec!["c12-one".to_string(), "--stm".into(), if white_to_move { "w".into() } else { "b".into() }, "--line".into(), line.to_string(), "--own-time".into(), own_time.to_string(), "--own-inc".into(), own_inc.to_string()];
+    crate::crumb::set_owned(&args);
     match budget(fl, line) {
         Err(e) => {
             rep.violation(format!("{} panic", sig_base), format!("{:?}: {}", line, e), args, J::Null);
